@@ -78,6 +78,12 @@ class Ctx:
         except (SelectorError, OutOfSubset) as e:
             self.undecided.append((label, '%s: %s' % (type(e).__name__, e)))
             return False
+        except (KeyError, AttributeError, IndexError, TypeError, ValueError, z3.Z3Exception) as e:
+            # the sidecar contract refers to something (a local name, a shape) the code no longer has: the section cannot be decided
+            import traceback
+            where = traceback.extract_tb(e.__traceback__)[-1]
+            self.undecided.append((label, 'contract no longer matches the code (%s: %s at %s:%d)' % (type(e).__name__, str(e)[:120], where.filename.split('/')[-1], where.lineno)))
+            return False
 
 
 def suffix(st, base_len):
